@@ -224,6 +224,19 @@ def fit_failures_handled(repo, rep, rule):
 
 
 def run(repo, rep, tier):
+    rep.rule("R-C20-21", "(shared with C05 / C09) split() slices direction labels only on data sorted in the same function (a label slice on an unsorted index is "
+                         "empty or raises for a valid spectrum)")
+    from ..order import OrderAnalysis
+    _fi = repo.func("wavespectra.specarray.SpecArray.split")
+    _oa = OrderAnalysis(repo, _fi, repo.attrs.DIRNAME)
+    for _kind, _node, _msg in _oa.run():
+        rep.fail("R-C20-21", _fi.file, _node.lineno, _fi.qualname, unparse(_node)[:120], _msg)
+    rep.ok("R-C20-21", f"{_fi.file} split", f"{_oa.checked} order-sensitive operations", "only on data sorted in the same function")
+    rep.floor("R-C20-21", "order-sensitive operations in split", _oa.checked, 1)
+    rep.rule("R-C20-22", "argument validation tests numeric limits with `is not None`, never by truthiness (a limit of 0 would skip the check and an empty / reversed "
+                         "band would be processed instead of rejected)")
+    from .round7b import truthiness_guards
+    truthiness_guards(repo, rep, "R-C20-22", ("wavespectra.specarray", "wavespectra.partition.", "wavespectra.core.utils", "wavespectra.core.select"))
     from .round7b import hygiene
     hygiene(repo, rep, "C20", ('wavespectra.',), falsy=True)
     rep.rule("R-C20-20", "every curve_fit call of the fitting kernels is guarded against ValueError, RuntimeError and OptimizeWarning (a failed fit gives NaN, not an exception)")
